@@ -130,4 +130,48 @@ example : (inverseNoises ["u2", "u1"] ⟨[("u2", 3), ("u1", 5)], [("gps", [("b",
     [-1, 2, 4, -6, 8]) = ⟨[("u1", 1/1000000), ("u2", 2)], [("alt", [("q", 4)]), ("gps", [("a", 1/1000000), ("b", 8)])]⟩ := by
   decide +kernel
 
+
+/-! ### the order in which a noise table is written is not part of it -/
+
+private theorem lookup_perm' {l₁ l₂ : List (Name × Rat)} (h : l₁.Perm l₂) (hnd : (l₁.map (·.1)).Nodup) (k : Name) :
+    l₁.lookup k = l₂.lookup k := by
+  induction h with
+  | nil => rfl
+  | cons x _ ih =>
+    obtain ⟨a, b⟩ := x
+    simp only [List.map_cons, List.nodup_cons] at hnd
+    simp only [List.lookup_cons]
+    cases hk : (k == a) with
+    | true => rfl
+    | false => exact ih hnd.2
+  | swap x y l =>
+    obtain ⟨a, b⟩ := x
+    obtain ⟨c, e⟩ := y
+    simp only [List.map_cons, List.nodup_cons, List.mem_cons, not_or] at hnd
+    simp only [List.lookup_cons]
+    cases hka : (k == a) with
+    | false => cases hkc : (k == c) <;> rfl
+    | true =>
+      cases hkc : (k == c) with
+      | false => rfl
+      | true =>
+        exfalso
+        have h1 : k = a := by simpa using hka
+        have h2 : k = c := by simpa using hkc
+        exact hnd.1.1 (by rw [← h2, h1])
+  | trans h₁ _ ih₁ ih₂ =>
+    exact (ih₁ hnd).trans (ih₂ ((h₁.map (·.1)).nodup_iff.mp hnd))
+
+/-- **One sensor's block of the scoring vector does not depend on the order its noise table was written in**: the block is the
+table's values in the name order of its keys. (The inverse writes the block back in the same name order — `sensor_keys`,
+`sensor_pos` — so flatten and inverse agree on which entry belongs to which reading however the dict was typed.) -/
+theorem block_written_order (m m' : List (Name × Rat)) (h : m.Perm m') (hn : (m.map (·.1)).Nodup) :
+    diagOf m' (layout (m'.map (·.1))) = diagOf m (layout (m.map (·.1))) := by
+  have hl : layout (m'.map (·.1)) = layout (m.map (·.1)) := layout_perm (h.map _).symm
+  rw [hl]
+  unfold diagOf
+  apply List.map_congr_left
+  intro n _
+  rw [lookup_perm' h hn n]
+
 end FormakVerif.C17
